@@ -11,8 +11,8 @@ from runner import PropertyCheck, Broken, Violation
 class Check(PropertyCheck):
     pid = "C02"
     props_module = "Properties.Properties_C02"
-    extra_targets = ["Extract/ExtractEnc.vo", "Extract/ExtractDec.vo", "Extract/ExtractGen.vo", "Extract/ExtractPm.vo"]
-    extra_props = ["Properties.Properties_C02gen", "Properties.Properties_C02gen_total"]
+    extra_targets = ["Extract/ExtractEnc.vo", "Extract/ExtractDec.vo", "Extract/ExtractGen.vo", "Extract/ExtractPm.vo", "Extract/ExtractEncode.vo"]
+    extra_props = ["Properties.Properties_C02gen", "Properties.Properties_C02gen_total", "Properties.Properties_C02enc"]
     gen_files = enclib.ENC_GEN
     trusted_base = enclib.ENC_TRUSTED
     assumptions = ["libbz2 (python bz2) stands for 'the reference bzip2 library'"]
